@@ -262,7 +262,26 @@ def hll_value(kind, i):
     raise KeyError(kind)
 
 
+class _LenRaised(Exception):
+    pass
+
+
+def _len(sketch):
+    """len() of a sketch; an exception here is the sketch's fault (e.g. a negative estimate), not the harness'."""
+    try:
+        return len(sketch)
+    except (ValueError, OverflowError, TypeError) as e:
+        raise _LenRaised(f'{type(e).__name__}: {e}')
+
+
 def _hll_history(a):
+    try:
+        return _hll_history_inner(a)
+    except _LenRaised as e:
+        return {'problems': [{'kind': 'len-raised', 'error': str(e)}], 'distinct': 0, 'probes': 0, 'crossed': False, 'dup_after_switch': 0}
+
+
+def _hll_history_inner(a):
     clock = FakeClock()
     alloc.install(a.get('poison'))
     sk = HyperLogLogWCache(0.02)
@@ -293,7 +312,7 @@ def _hll_history(a):
     def check(where):
         nonlocal probes
         probes += 1
-        L = len(sk)
+        L = _len(sk)
         if distinct <= exact_limit:
             if L != distinct:
                 problems.append({'where': where, 'kind': 'not-exact', 'distinct': distinct, 'len': L})
@@ -307,17 +326,17 @@ def _hll_history(a):
         if decoy is not None:
             # the second sketch gets its own stream; in scaled mode it crosses its switch as well
             burst = 3 if not scaled else rng.choice([3, exact_limit // 2 + 1])
-            before_main = len(sk)
+            before_main = _len(sk)
             for _ in range(burst):
                 decoy.add(f'decoy-{decoy_n}')
                 decoy_n += 1
             decoy.add('decoy-0')
-            if len(sk) != before_main:
+            if _len(sk) != before_main:
                 problems.append({'where': f'step {step}', 'kind': 'second-sketch-disturbed', 'detail': 'adding to another sketch changed this one',
-                                 'before': before_main, 'after': len(sk)})
+                                 'before': before_main, 'after': _len(sk)})
                 break
-            if decoy_n <= exact_limit and len(decoy) != decoy_n:
-                problems.append({'where': f'step {step}', 'kind': 'second-sketch-disturbed', 'distinct': decoy_n, 'len': len(decoy)})
+            if decoy_n <= exact_limit and _len(decoy) != decoy_n:
+                problems.append({'where': f'step {step}', 'kind': 'second-sketch-disturbed', 'distinct': decoy_n, 'len': _len(decoy)})
                 break
         if k == 'add_new':
             n = op[1]
@@ -336,7 +355,7 @@ def _hll_history(a):
             n, where = op[1], op[2]
             if distinct == 0:
                 continue
-            before = len(sk)
+            before = _len(sk)
             for _ in range(n):
                 if where == 'old':
                     i = rng.randrange(0, min(distinct, 1000))
@@ -348,7 +367,7 @@ def _hll_history(a):
                 else:
                     i = rng.randrange(0, distinct)
                 sk.add(hll_value(kind, i))
-            after = len(sk)
+            after = _len(sk)
             if crossed or distinct >= exact_limit:
                 dup_after_switch += n
             if after != before:
@@ -362,7 +381,7 @@ def _hll_history(a):
     if not problems:
         check('end')
     return {'problems': problems[:3], 'distinct': distinct, 'probes': probes, 'crossed': crossed, 'dup_after_switch': dup_after_switch,
-            'final_len': len(sk)}
+            'final_len': _len(sk)}
 
 
 @register('hist.hll')
